@@ -93,6 +93,82 @@ def location_test (lon : List V) (lat : List V) (bbox : SeqArg) (range_max : Opt
       flag_arr := setWhereB flag_arr (gtS d range_max) .suspect
   flag_arr := setWhereB flag_arr (bor (bor (bor (ltS lon bbox.minx) (ltS lat bbox.miny)) (gtS lon bbox.maxx)) (gtS lat bbox.maxy)) .fail
   return flag_arr
+
+def density_inversion_test (inp : List V) (zinp : List V) (suspect_threshold : Option Rat) (fail_threshold : Option Rat) : Res := do
+  let inp := ofInput inp
+  let zinp := ofInput zinp
+  if inp.length != zinp.length then
+    throw .value
+  let mut flag_arr := ones inp.length
+  if inp.length == 0 then
+    return []
+  if inp.length < 2 then
+    flag_arr ← setAt0 flag_arr .unknown
+    return flag_arr
+  let mut delta := maBin Fl.mul (uf1 Fl.sign (maDiff zinp)) (maDiff inp)
+  if let some suspect_threshold := suspect_threshold then
+    let mut is_suspect := ltS delta suspect_threshold
+    if anyB is_suspect then
+      flag_arr := setInit1 flag_arr (setWhereB (init1 flag_arr) (eqTrue is_suspect) .suspect)
+      flag_arr := setTail flag_arr (setWhereB (tail1 flag_arr) (eqTrue is_suspect) .suspect)
+  if let some fail_threshold := fail_threshold then
+    let mut is_fail := ltS delta fail_threshold
+    if anyB is_fail then
+      flag_arr := setInit1 flag_arr (setWhereB (init1 flag_arr) (eqTrue is_fail) .fail)
+      flag_arr := setTail flag_arr (setWhereB (tail1 flag_arr) (eqTrue is_fail) .fail)
+  let mut is_missing := bor2 (maskOf inp) (maskOf zinp)
+  flag_arr := setWhere flag_arr is_missing .missing
+  flag_arr := setTail flag_arr (setWhere (tail1 flag_arr) (init1 is_missing) .missing)
+  return flag_arr
+
+def speed_test (lon : List V) (lat : List V) (tinp : List Int) (suspect_threshold : Rat) (fail_threshold : Rat) (hops : List V) : Res := do
+  let lat := ofInput lat
+  let lon := ofInput lon
+  if lon.length != lat.length || lon.length != tinp.length then
+    throw .value
+  if lon.length == 0 then
+    return []
+  let mut flag_arr := ones lon.length
+  let mut mloc := band (maskOf lon) (maskOf lat)
+  flag_arr := setWhere flag_arr mloc .missing
+  if lon.length < 2 then
+    flag_arr ← setAt0 flag_arr .unknown
+    return flag_arr
+  let mut dist := greatCircle hops lon.length
+  let mut speed := zeros tinp.length
+  speed := setTail speed (uf1 Fl.abs (maDivArr (tail1 dist) (dtSeconds tinp)))
+  flag_arr := setWhereB flag_arr (gtS speed suspect_threshold) .suspect
+  flag_arr := setWhereB flag_arr (gtS speed fail_threshold) .fail
+  flag_arr ← setAt0 flag_arr .unknown
+  flag_arr := setWhere flag_arr (maskOf dist) .missing
+  return flag_arr
+
+def pressure_increasing_test (inp : List V) : Res := do
+  let inp := ofInputFilled inp
+  let mut delta := npDiff inp
+  let mut flags := ones inp.length
+  let mut sign := Fl.sign (npMean delta)
+  if sign.ltS 0 then
+    delta := npMulS sign delta
+  let mut flag_idx := (npWhere (npLeS delta 0)).map (· + 1)
+  flags := setIdx flags flag_idx .suspect
+  return flags
+
+def valid_range_test (inp : List V) (valid_span : V × V) (start_inclusive : Bool) (end_inclusive : Bool) (junk : List Fl) : Res := do
+  let inp := ofInputJunk inp junk
+  let mut flag_arr := ones inp.length
+  if let some valid_span_0 := valid_span.1 then
+    if start_inclusive = true then
+      flag_arr := setWhereB flag_arr (ltS inp valid_span_0) .fail
+    else
+      flag_arr := setWhereB flag_arr (leS inp valid_span_0) .fail
+  if let some valid_span_1 := valid_span.2 then
+    if end_inclusive = true then
+      flag_arr := setWhereB flag_arr (gtS inp valid_span_1) .fail
+    else
+      flag_arr := setWhereB flag_arr (geS inp valid_span_1) .fail
+  flag_arr := setWhere flag_arr (maskOf inp) .missing
+  return flag_arr
 -- END GENERATED
 
 end IoosQc.NpSrc
